@@ -368,3 +368,8 @@ _extend('C03',
         'hypotheses of the success theorem: whenever the model refuses, ok accepts the refusal (malformed or stochastic observed data), and '
         'for a well-formed case the model succeeds iff no observed data depends on a stochastic node and its result satisfies ok. The '
         'unconditional statement is false (two counterexamples outside wf_case: a value supplied under _batch_size; duplicate with_values keys).')
+
+
+_extend('C14',
+        ' LINK to C02 (C14_scripts_same_model_same_generate): two guarded API scripts that end in the same model up to the order in which '
+        'nodes, edges and observed data were inserted give the same generate result (both succeed with equal values and call log, or both fail).')
